@@ -123,7 +123,7 @@ func genC10(t *rapid.T) *Case {
 		}
 		return op
 	}), minHistory(t, 30), 30).Draw(t, "ops")
-	c.Ops = ops
+	c.Ops = noOrderDependentTestaments(ops)
 	return c
 }
 
